@@ -544,6 +544,11 @@ def r9_failed_request_forgotten(ctx):
     r3_commit_after_success(ctx)
 
 
+def r10_settings_describe_the_data(ctx):
+    from .c06 import r10_settings_describe_the_data as r
+    r(ctx)
+
+
 RULES = [
     ("C03-R1", "a changed setting drops results on every storing path",
      r1_invalidate_on_change),
@@ -561,4 +566,6 @@ RULES = [
     ("C03-R8", "settings are stored by (deep) value", r8_settings_by_value),
     ("C03-R9", "a failed preprocessing request leaves no remembered "
      "pipeline behind", r9_failed_request_forgotten),
+    ("C03-R10", "a steps/options keyword of fit_model is applied to the "
+     "data before it is stored", r10_settings_describe_the_data),
 ]
